@@ -2,6 +2,7 @@ package bits
 
 import (
 	"encoding/binary"
+	"errors"
 	"fmt"
 	"regexp"
 	"strings"
@@ -428,6 +429,24 @@ func (bA *BitArray) ToProto() *tmprotobits.BitArray {
 		Bits:  int64(bA.Bits),
 		Elems: bA.Elems,
 	}
+}
+
+// ValidateBasic checks that the element slice fits the bit count. An array
+// decoded from a peer's message (FromProto) may not, and would then be indexed
+// out of range by SetIndex, Not, PickRandom, ...
+func (bA *BitArray) ValidateBasic() error {
+	if bA == nil {
+		return nil
+	}
+	bA.mtx.Lock()
+	defer bA.mtx.Unlock()
+	if bA.Bits < 0 {
+		return errors.New("negative Bits")
+	}
+	if want := (bA.Bits + 63) / 64; len(bA.Elems) != want {
+		return fmt.Errorf("mismatch between Bits %d and the number of Elems: want %d, got %d", bA.Bits, want, len(bA.Elems))
+	}
+	return nil
 }
 
 // FromProto sets a protobuf BitArray to the given pointer.
